@@ -5,5 +5,6 @@ import DosModel.Gen.P2PFlow
 def c17Step (line : String) : String :=
   match Dos.words line with
   | ["hist", peers, steps] => Dos.ConnTable.stepHist Dos.ConnTable.Cfg.code peers steps
-  | _ => Dos.Dispatch.driverStep (Dos.Gen.handshakeDeadline && Dos.Gen.mergeErrorsReleases) line
+  | _ => Dos.Dispatch.driverStep (Dos.Gen.handshakeDeadline && Dos.Gen.mergeErrorsReleases) Dos.Gen.dialBounded
+      (Dos.Gen.decodeVerifiesFirst || Dos.Gen.decodePipeVerifiesAgain) line
 def main : IO Unit := Dos.lineLoop c17Step
